@@ -18,6 +18,8 @@ def matrix(fmt, tier, kf_bin):
             cat['skip_types'] = ['Bin']
         jobs.append(cat)
         jobs.append(dict(cat, positions=['cell'], multi=True))
+        jobs.append(dict(fmt=fmt, kind='catalog', extra='zones', positions=['cell'], version=ver, N=0, timeout=to))
+        jobs.append(dict(fmt=fmt, kind='catalog', extra='times', positions=['cell'] if ver == '3.0' else ['gridmeta'], version=ver, N=0, timeout=to))
         for kind in TEXT_KINDS + ALPHA_KINDS:
             if kind in ('xstr', 'xstrtype') and ver == '2.0':
                 continue        # XStr is a 3.0 kind (C10)
